@@ -33,6 +33,10 @@ MISSES = {
     'C31b': 'start points and all later points were single-digit -> a quarter of the runs are warm starts (2..9) of workflows with 10-12 cycles',
     'C48b': 'histories were too short to reach run10 -> one history in twelve begins with 9-12 numbered installs',
     'C11b': 'no task definition was also the target of a suicide trigger -> a third of the plain/user definitions loaded through WorkflowConfig get a "=> !a" line',
+    'C19c': 'no "release everything" after holds of not-yet-spawned tasks, and the stale table is healed by the next removal of any task -> hold + release-all preludes with a stop in the very next iteration (C06 caught it as it stood)',
+    'C29c': 'restart is outside the C29 workload -> caught by C19 after manual `cylc set --out/--pre` commands were added to its preludes (that widening also found the fixed defect 16987d3)',
+    'C30c': 'restart is outside the C30 workload -> caught by C19: the snapshot comparison now includes how each prerequisite was satisfied (forced / naturally)',
+    'C20c': 'no absolute triggers in the C20 workload -> caught by C45 (abs-prerequisite-unsatisfied:after-restart)',
     'C01b': 'needs absolute triggers, which the C01 workload does not generate (its closure model is not validated for them) -> caught by C45; C01 unchanged',
 }
 
